@@ -3,6 +3,7 @@ package tmmirror_test
 import (
 	"context"
 	"fmt"
+	"math/big"
 	"testing"
 
 	"github.com/bits-and-blooms/bitset"
@@ -351,3 +352,374 @@ func c09Spec() propSpec {
 }
 
 func TestVerifC09MirrorHostile(t *testing.T) { runProp(t, c09Spec()) }
+
+// ---------------------------------------------------------------------------
+// C01: committed only on a valid >2/3 precommit certificate
+
+type commitEvent struct {
+	H    uint64
+	Hash string
+	Via  string
+}
+
+// detectCommits compares the observable commit state with the previous step.
+func (s *sim) detectCommits() []commitEvent {
+	var evs []commitEvent
+	ctx := context.Background()
+	// committed-header store: every height newly present
+	for h := s.w.init; h <= s.vv.Height+1; h++ {
+		ch, err := s.d.chs.LoadCommittedHeader(ctx, h)
+		if err != nil {
+			continue
+		}
+		if _, seen := s.seenCommitted[h]; !seen {
+			s.seenCommitted[h] = string(ch.Header.Hash)
+			evs = append(evs, commitEvent{H: h, Hash: string(ch.Header.Hash), Via: "committed-header-store"})
+		}
+	}
+	// committing view
+	if s.cv.Height > 0 {
+		hash := s.committingHash()
+		key := fmt.Sprintf("%d/%x", s.cv.Height, hash)
+		if !s.seenCommitting[key] {
+			s.seenCommitting[key] = true
+			evs = append(evs, commitEvent{H: s.cv.Height, Hash: hash, Via: "committing-view"})
+		}
+	}
+	// replay accepted in this step
+	for _, ro := range s.lastReplay {
+		if ro.Step == s.step && ro.Done && ro.Err == nil {
+			evs = append(evs, commitEvent{H: ro.B.H, Hash: string(ro.B.Header.Hash), Via: "replay-accepted"})
+		}
+	}
+	// committed header handed to the state machine
+	for i := len(s.smRecv) - 1; i >= 0 && s.smRecv[i].Step == s.step; i-- {
+		if ch := s.smRecv[i].V.CH; ch != nil {
+			evs = append(evs, commitEvent{H: ch.Header.Height, Hash: string(ch.Header.Hash), Via: "handed-to-state-machine"})
+		}
+	}
+	return evs
+}
+
+// committingHash is the block the committing view commits: the precommit
+// target holding the most verified power (the view does not name it).
+func (s *sim) committingHash() string {
+	if ch, ok := s.committedHeader(s.cv.Height); ok {
+		return string(ch.Header.Hash)
+	}
+	return s.cv.VoteSummary.MostVotedPrecommitHash
+}
+
+// certificatePower collects every precommit signature the node holds for
+// (h, hash), per round, and returns the best verified power under the
+// prescribed set for h.
+func (s *sim) certificatePower(h uint64, hash string) (best *big.Int, total *big.Int, detail string) {
+	set := s.setFor(h)
+	total = set.total()
+	ctx := context.Background()
+	byRound := map[uint32][]gcrypto.SparseSignature{}
+	if s.cv.Height == h {
+		if p, ok := s.cv.PrecommitProofs[hash]; ok {
+			byRound[s.cv.Round] = append(byRound[s.cv.Round], p.AsSparse().Signatures...)
+		}
+	}
+	if s.vv.Height == h+1 {
+		byRound[s.vv.PrevCommitProof.Round] = append(byRound[s.vv.PrevCommitProof.Round], s.vv.PrevCommitProof.Proofs[hash]...)
+	}
+	if ch, err := s.d.chs.LoadCommittedHeader(ctx, h); err == nil && string(ch.Header.Hash) == hash {
+		byRound[ch.Proof.Round] = append(byRound[ch.Proof.Round], ch.Proof.Proofs[hash]...)
+	}
+	rounds := map[uint32]bool{}
+	for r := range byRound {
+		rounds[r] = true
+	}
+	for _, hr := range s.touchedRounds() {
+		if hr[0] == h {
+			rounds[uint32(hr[1])] = true
+		}
+	}
+	for r := range rounds {
+		if _, _, pc, err := s.d.rs.LoadRoundState(ctx, h, r); err == nil {
+			byRound[r] = append(byRound[r], pc.BlockSignatures[hash]...)
+		}
+	}
+	best = new(big.Int)
+	for r, sigs := range byRound {
+		ok := map[int]bool{}
+		msg := precommitBytes(h, r, hash)
+		for _, sg := range sigs {
+			if len(sg.KeyID) != 2 {
+				continue
+			}
+			i := int(sg.KeyID[0])<<8 | int(sg.KeyID[1])
+			if i < len(set.Keys) && verifyWith(set.Keys[i], msg, sg.Sig) {
+				ok[i] = true
+			}
+		}
+		p := powerOf(set, ok)
+		detail += fmt.Sprintf(" round %d: %d held signatures, %d distinct verified signers, power %s;", r, len(sigs), len(ok), p)
+		if p.Cmp(best) > 0 {
+			best = p
+		}
+	}
+	return best, total, detail
+}
+
+func c01Oracle(s *sim, op Op, idx int) {
+	if !s.alive {
+		return
+	}
+	for _, ev := range s.detectCommits() {
+		s.label("commit-event:" + ev.Via)
+		if ev.Hash == "" {
+			s.failf("", "nil-committed", "commit event (%s) at height %d for the nil hash", ev.Via, ev.H)
+			return
+		}
+		best, total, detail := s.certificatePower(ev.H, ev.Hash)
+		if !exceedsTwoThirds(best, total) {
+			s.failf("", "commit-without-certificate", "height %d hash %s treated as committed (%s) but the node holds valid precommits for exactly that height/round/hash from prescribed validators with power %s of %s (need > 2/3):%s",
+				ev.H, hx([]byte(ev.Hash)), ev.Via, best, total, detail)
+			return
+		}
+	}
+}
+
+func c01Spec() propSpec {
+	return propSpec{
+		prop: "C01", test: "TestVerifC01CommitCertificate",
+		rule: "histories of 3-40 ops against one real Mirror weighted towards certificates: honest round macros with partial signer masks (below / at / above quorum), precommit messages with corruption, proposed headers with every previous-commit-proof variant (next-height headers that backfill a commit included), replayed headers of every variant (foreign validator list, forged powers, below quorum, bad signature, other height, extra nil entry), state machine entrances, concurrent groups; at every commit event (committing view, committed-header store, accepted replay, header handed to the state machine) the held precommits are re-verified with crypto/ed25519 under the prescribed set and summed in math/big; non-trivial = >=1 commit event and >=1 certificate that must be rejected was offered; distinct = fingerprint of (config, op list)",
+		profile: genProfile{
+			w:              map[string]int{"ph": 5, "vote": 8, "round": 6, "replay": 6, "sment": 1, "smact": 1, "conc": 1},
+			phVariants:     []int{phFresh, phFresh, phFresh, phAltNext, phBadSig, phWrongPrev, phForgedNext, phForgedCur},
+			pcpVariants:    allVariants(pcpVariants),
+			voteCorr:       []int{vcNone, vcFlip, vcOtherKey, vcOtherKind, vcOtherRound, vcOtherHeight, vcOutsider, vcOtherTarget},
+			replayVariants: allVariants(rvVariants),
+			pkhVariants:    []int{0, 0, 0, 0, 1},
+			minOps:         3, maxOps: 40,
+			dh: []int{0, 0, 0, 0, 1, 1, -1}, dr: []int{0, 0, 0, 1},
+			multiTarget: true,
+		},
+		setup:  func(s *sim) { s.seenCommitted = map[uint64]string{}; s.seenCommitting = map[string]bool{} },
+		oracle: c01Oracle,
+		nontrivial: func(s *sim) bool {
+			commits := 0
+			for l, n := range s.labels {
+				if len(l) > 13 && l[:13] == "commit-event:" {
+					commits += n
+				}
+			}
+			return commits > 0 && s.labels["must-reject-offered"] > 0
+		},
+	}
+}
+
+func TestVerifC01CommitCertificate(t *testing.T) { runProp(t, c01Spec()) }
+
+// ---------------------------------------------------------------------------
+// C07: the validator set used at each height is the one the chain committed
+
+func valSetMatches(got tmconsensus.ValidatorSet, want vset) string {
+	if len(got.Validators) != len(want.Keys) || len(got.PubKeys) != len(want.Keys) {
+		return fmt.Sprintf("has %d validators / %d pubkeys, prescribed set has %d", len(got.Validators), len(got.PubKeys), len(want.Keys))
+	}
+	for i := range want.Keys {
+		if !got.Validators[i].PubKey.Equal(msPub[want.Keys[i]]) || !got.PubKeys[i].Equal(msPub[want.Keys[i]]) {
+			return fmt.Sprintf("validator %d has key %x.., prescribed %x..", i, got.Validators[i].PubKey.PubKeyBytes()[:4], msPub[want.Keys[i]].PubKeyBytes()[:4])
+		}
+		if got.Validators[i].Power != want.Powers[i] {
+			return fmt.Sprintf("validator %d has power %d, prescribed %d", i, got.Validators[i].Power, want.Powers[i])
+		}
+	}
+	if string(got.PubKeyHash) != string(want.VS.PubKeyHash) || string(got.VotePowerHash) != string(want.VS.VotePowerHash) {
+		return "hashes differ from the prescribed set's"
+	}
+	return ""
+}
+
+func listMatchesHashes(v tmconsensus.ValidatorSet) string {
+	if len(v.Validators) == 0 {
+		return "empty validator list"
+	}
+	if string(refPubKeyHash(tmconsensus.ValidatorsToPubKeys(v.Validators))) != string(v.PubKeyHash) {
+		return "public keys do not hash to PubKeyHash"
+	}
+	if string(refPubKeyHash(v.PubKeys)) != string(v.PubKeyHash) {
+		return "PubKeys slice does not hash to PubKeyHash"
+	}
+	if string(refPowerHash(tmconsensus.ValidatorsToVotePowers(v.Validators))) != string(v.VotePowerHash) {
+		return "powers do not hash to VotePowerHash"
+	}
+	return ""
+}
+
+func c07Oracle(s *sim, op Op, idx int) {
+	if !s.alive {
+		return
+	}
+	if m := valSetMatches(s.vv.ValidatorSet, s.setFor(s.vv.Height)); m != "" {
+		s.failf("", "voting-set-not-prescribed", "voting view at height %d (after %d restarts): %s", s.vv.Height, s.restarts, m)
+		return
+	}
+	if m := listMatchesHashes(s.vv.ValidatorSet); m != "" {
+		s.failf("", "set-contents-vs-hashes", "voting view at height %d: %s", s.vv.Height, m)
+		return
+	}
+	if s.cv.Height > 0 {
+		if m := valSetMatches(s.cv.ValidatorSet, s.setFor(s.cv.Height)); m != "" {
+			s.failf("", "committing-set-not-prescribed", "committing view at height %d (after %d restarts): %s", s.cv.Height, s.restarts, m)
+			return
+		}
+	}
+	for h := s.w.init; h <= s.cv.Height; h++ {
+		ch, ok := s.committedHeader(h)
+		if !ok {
+			continue
+		}
+		if m := listMatchesHashes(ch.Header.NextValidatorSet); m != "" {
+			s.failf("", "committed-next-set-vs-hashes", "committed header %d NextValidatorSet: %s", h, m)
+			return
+		}
+		if m := listMatchesHashes(ch.Header.ValidatorSet); m != "" {
+			s.failf("", "committed-set-vs-hashes", "committed header %d ValidatorSet: %s", h, m)
+			return
+		}
+		if m := valSetMatches(ch.Header.ValidatorSet, s.setFor(h)); m != "" {
+			s.failf("", "committed-set-not-prescribed", "committed header %d ValidatorSet: %s", h, m)
+			return
+		}
+	}
+	if s.cv.Height >= s.w.init+2 {
+		s.label("reached-changed-sets")
+	}
+}
+
+func c07Spec() propSpec {
+	return propSpec{
+		prop: "C07", test: "TestVerifC07ValidatorSets",
+		rule: "histories of 3-30 ops on chains whose application changes validator keys and powers at every height (from initial+2 on): honest round macros, proposed headers that are copies with altered ValidatorSet / NextValidatorSet lists (hashes, block hash and signature untouched) delivered before or after the original, Byzantine-but-consistent alternative next sets, next-height headers, replays (incl. foreign list / forged powers), restarts; after every step the voting and committing validator sets must equal the prescribed set (keys, powers, hashes) and every committed header's lists must hash (independent BLAKE2b re-implementation) to its hashes; non-trivial = validator set differs between two consecutive committed heights and a forged-list message was delivered; distinct = fingerprint of (config, op list)",
+		profile: genProfile{
+			w:              map[string]int{"ph": 8, "vote": 3, "round": 10, "replay": 3, "restart": 2, "sment": 1},
+			phVariants:     []int{phFresh, phFresh, phForgedNext, phForgedNext, phForgedCur, phForgedNextPowers, phAltNext},
+			pcpVariants:    []int{pcpExact},
+			voteCorr:       []int{vcNone},
+			replayVariants: []int{rvHonest, rvForeignSet, rvForeignPowers},
+			minOps:         3, maxOps: 30,
+			dh: []int{0, 0, 0, 1}, dr: []int{0, 0, 0, 1},
+			valChange: []int{1, 2, 2},
+			inits:     []uint64{1, 1, 5},
+		},
+		oracle: c07Oracle,
+		nontrivial: func(s *sim) bool {
+			forged := s.labels["ph:v2"]+s.labels["ph:v3"]+s.labels["ph:v9"]+s.labels["replay:v1:ok=false"]+s.labels["replay:v1:ok=true"]+s.labels["replay:v9:ok=false"]+s.labels["replay:v9:ok=true"] > 0
+			return s.labels["reached-changed-sets"] > 0 && forged
+		},
+	}
+}
+
+func TestVerifC07ValidatorSets(t *testing.T) { runProp(t, c07Spec()) }
+
+// ---------------------------------------------------------------------------
+// C04: the committed chain is immutable, gap-free and hash-linked
+
+func c04Oracle(s *sim, op Op, idx int) {
+	ctx := context.Background()
+	// (a) + (b): heights present are exactly initial..committing, hashes never change
+	top := uint64(0)
+	for h := s.w.init; h <= s.vv.Height+2; h++ {
+		ch, err := s.d.chs.LoadCommittedHeader(ctx, h)
+		if err != nil {
+			continue
+		}
+		if ch.Header.Height != h {
+			s.failf("", "stored-under-wrong-height", "committed header store returns height %d for height %d", ch.Header.Height, h)
+			return
+		}
+		if old, ok := s.c04Hash[h]; ok && old != string(ch.Header.Hash) {
+			s.failf("", "committed-hash-changed", "height %d was committed with hash %s and is now %s", h, hx([]byte(old)), hx(ch.Header.Hash))
+			return
+		}
+		s.c04Hash[h] = string(ch.Header.Hash)
+		top = h
+	}
+	for h := range s.c04Hash {
+		if _, err := s.d.chs.LoadCommittedHeader(ctx, h); err != nil {
+			s.failf("", "committed-header-lost", "height %d was committed and can no longer be loaded: %v", h, err)
+			return
+		}
+	}
+	for h := s.w.init; h < top; h++ {
+		if _, ok := s.c04Hash[h]; !ok {
+			s.failf("", "gap", "height %d is committed but height %d is not", top, h)
+			return
+		}
+	}
+	// (d) hash link
+	for h := s.w.init + 1; h <= top; h++ {
+		cur, _ := s.d.chs.LoadCommittedHeader(ctx, h)
+		if string(cur.Header.PrevBlockHash) != s.c04Hash[h-1] {
+			s.failf("", "broken-hash-link", "committed header %d names predecessor %s but height %d is committed with hash %s", h, hx(cur.Header.PrevBlockHash), h-1, hx([]byte(s.c04Hash[h-1])))
+			return
+		}
+	}
+	// (c) positions
+	vh, vr, chh, chr, err := s.d.ms.NetworkHeightRound(ctx)
+	if err == nil {
+		if vh < s.c04NHR[0] || (vh == s.c04NHR[0] && vr < uint32(s.c04NHR[1])) {
+			s.failf("", "stored-position-regressed", "mirror store voting position went from %d/%d to %d/%d", s.c04NHR[0], s.c04NHR[1], vh, vr)
+			return
+		}
+		if chh < s.c04NHR[2] {
+			s.failf("", "stored-position-regressed", "mirror store committing height went from %d to %d", s.c04NHR[2], chh)
+			return
+		}
+		s.c04NHR = [4]uint64{vh, uint64(vr), chh, uint64(chr)}
+		if !(chh == 0 && vh == s.w.init) && chh+1 != vh {
+			s.failf("", "voting-not-committing-plus-one", "mirror store: voting height %d, committing height %d", vh, chh)
+			return
+		}
+	}
+	if !s.alive {
+		return
+	}
+	if s.vv.Height < s.c04View[0] || (s.vv.Height == s.c04View[0] && uint64(s.vv.Round) < s.c04View[1]) {
+		s.failf("", "view-position-regressed", "voting view went from %d/%d to %d/%d", s.c04View[0], s.c04View[1], s.vv.Height, s.vv.Round)
+		return
+	}
+	s.c04View = [2]uint64{s.vv.Height, uint64(s.vv.Round)}
+	if !(s.cv.Height == 0 && s.vv.Height == s.w.init) && s.cv.Height+1 != s.vv.Height {
+		s.failf("", "voting-not-committing-plus-one", "views: voting height %d, committing height %d", s.vv.Height, s.cv.Height)
+		return
+	}
+	if s.cv.Height > 0 && top != s.cv.Height {
+		s.failf("", "store-vs-view", "committing view is at height %d but the committed-header store ends at %d", s.cv.Height, top)
+		return
+	}
+	if top >= s.w.init+1 {
+		s.label("two-commits")
+	}
+}
+
+func c04Spec() propSpec {
+	return propSpec{
+		prop: "C04", test: "TestVerifC04CommittedChain",
+		rule: "histories of 4-45 ops over several heights: honest round macros, late / duplicated / conflicting but well-signed certificates aimed at committed heights (the harness owns all keys), proposed headers and replays whose PrevBlockHash does not match the committed predecessor, replays at old / current / future heights, next-height headers, concurrent groups, clean restarts; after every step: committed hash per height never changes, heights are contiguous from the initial height, stored and viewed voting positions never go backwards, voting height = committing height + 1, every stored header names the stored predecessor's hash; non-trivial = >=2 commits and >=1 input aimed at a committed height or carrying a mismatching PrevBlockHash; distinct = fingerprint of (config, op list)",
+		profile: genProfile{
+			w:              map[string]int{"ph": 6, "vote": 6, "round": 10, "replay": 5, "restart": 2, "conc": 1, "sment": 1},
+			phVariants:     []int{phFresh, phFresh, phWrongPrev, phWrongPrev, phAltNext},
+			pcpVariants:    []int{pcpExact, pcpExact, pcpExact, pcpBelowQuorum, pcpWrongRound},
+			voteCorr:       []int{vcNone, vcNone, vcFlip},
+			replayVariants: []int{rvHonest, rvHonest, rvWrongPrev, rvWrongPrev, rvOtherHeight, rvBelowQuorum, rvExtraNil},
+			minOps:         4, maxOps: 45,
+			dh: []int{0, 0, 0, -1, -1, -2, 1}, dr: []int{0, 0, 0, 1},
+			multiTarget: true,
+		},
+		setup:  func(s *sim) { s.c04Hash = map[uint64]string{} },
+		oracle: c04Oracle,
+		nontrivial: func(s *sim) bool {
+			aimed := s.labels["vote@committing"]+s.labels["vote@old"]+s.labels["ph:v6"]+s.labels["replay:v2:ok=true"]+s.labels["replay:v2:ok=false"]+s.labels["replay:v6:ok=false"] > 0
+			return s.labels["two-commits"] > 0 && aimed
+		},
+	}
+}
+
+func TestVerifC04CommittedChain(t *testing.T) { runProp(t, c04Spec()) }
